@@ -55,6 +55,9 @@ pub fn make_endpoint(spec: &Value) -> Result<ApiEndpoint<()>, String> {
     if let Some(v) = spec["visible"].as_bool() {
         e.visible = v;
     }
+    if let Some(tags) = spec["tags"].as_array() {
+        e.tags = tags.iter().map(|t| t.as_str().unwrap_or("t").to_string()).collect();
+    }
     Ok(e)
 }
 
